@@ -223,6 +223,7 @@ def derive_bottom(rng, top: dict, platform: str, small=None, kmax=3) -> dict:
     else:
         bot["flags"] = []
     bot["log"] = rng.choice(["", "", "log"])
+    bot["log_first"] = rng.random() < 0.4
     return bot
 
 
@@ -290,6 +291,7 @@ def gen_related_pair(rng, platform: str, *, groups: bool, small=None, kmax=3) ->
         bot["flags"] = []
     for desc in (top, bot):
         desc["log"] = rng.choice(["", "", "", "log", "log-input"])
+        desc["log_first"] = rng.random() < 0.4
     return {"top": top, "bottom": bot}
 
 
@@ -339,9 +341,14 @@ def compose(desc: dict, platform: str, seq: int = 0, names_ok=False) -> str:
     parts.append(desc["dst"])
     if desc.get("dport"):
         parts.append(desc["dport"])
-    parts.extend(desc.get("flags") or [])
-    if desc.get("log"):
-        parts.append(desc["log"])
+    flags = list(desc.get("flags") or [])
+    if desc.get("log") and flags and desc.get("log_first"):
+        parts.append(desc["log"])  # the log keyword in front of the flag tokens
+        parts.extend(flags)
+    else:
+        parts.extend(flags)
+        if desc.get("log"):
+            parts.append(desc["log"])
     return " ".join(parts)
 
 
